@@ -241,10 +241,11 @@ theorem st_fireIdOne (h : Inv jid U NR p c) (st : XTree) (uid : Nat) :
     · rfl
     · have : (runHandler c hd st).1.state = c.state := by
         unfold runHandler
-        rcases hk with e | e | e <;> (simp only [hkey] at e; rw [e]; dsimp only [runSys])
+        rcases hk with e | e | e | e <;> (simp only [hkey] at e; rw [e]; dsimp only [runSys])
         · exact st_handleBind c st
         · exact st_handleSession c st
         · exact st_handleLegacy c st
+        · rfl
       cases hr : runHandler c hd st with
       | mk c1 keep =>
         rw [hr] at this; dsimp only at this ⊢
